@@ -43,7 +43,7 @@ SPECS += [
     Spec(GROUP, "pn53x_ack_sof_check", F, "Chipset.command", [("frame", BYTES)], path=[(0, "body")], stmts=(6, 8),
          note="cut: inside `if cmd_data is not None:` the statements behind the try block that wrote the command and read "
               "the first frame: start code test (the `missing ack frame` test only logs)"),
-    Spec(GROUP, "pn53x_is_ack", F, "Chipset.command", [("frame", BYTES)], expr="frame == self.ACK",
+    Spec(GROUP, "pn53x_is_ack", F, "Chipset.command", [("frame", BYTES)], expr="frame == self.ACK", whole=True,
          note="cut: the condition of the `while frame == self.ACK` loop"),
 ]
 # hand-built frames of the serial-line bring-up in pn532.init (no Chipset object yet)
@@ -155,5 +155,7 @@ MUTATIONS = [
     ("pn53x_chipset_error_bytes", "status octet position", "errno = cause[0]", "errno = cause[1]"),
     ("pn53x_ack_sof_check", "start code test dropped for short frames", "if not frame.startswith(self.SOF):", "if len(frame) > 3 and not frame.startswith(self.SOF):"),
     ("pn53x_is_ack", "ACK compared by prefix", "while frame == self.ACK:", "while frame.startswith(self.ACK):"),
+    ("pn53x_is_ack", "ACK loop condition gains an operand", "while frame == self.ACK:", "while frame == self.ACK or len(frame) < 6:"),
+    ("pn53x_is_ack", "ACK loop condition gains a conjunct", "while frame == self.ACK:", "while frame == self.ACK and timeout < 60:"),
     ("pn53x_strip", "NEUTRAL mask spelling", "sum(frame[5:8]) & 0xFF", "sum(frame[5:8]) & 255"),
 ]
